@@ -464,6 +464,10 @@ def atoms_for_docs(docs, depth, rnd, per_path=None, absent=True, ops_v=OPS_V, op
                 if t not in own:
                     own.append(t)
             nd = node["to"] if node["k"] == "ptr" else node
+            if nd["k"] == "list" and "bs" in nd:
+                for t in (nd["bs"], nd["bs"][:1], "^" + nd["bs"][:1]):
+                    if t not in own:
+                        own.append(t)
             if nd["k"] == "list":
                 for e in nd["v"][:3]:
                     for t in own_text(e):
